@@ -91,6 +91,11 @@ func gen(t *rapid.T) Prog {
 	if strings.HasPrefix(p.GatedClose, "persister") || p.GatedClose == "intro-persist-window" {
 		p.Conf.Unsafe = true
 	}
+	if p.Conf.Unsafe && (p.GatedClose == "" || strings.HasPrefix(p.GatedClose, "merger")) && rapid.Bool().Draw(t, "nap") {
+		// a low file threshold makes the persister pause for a lagging merger (only with unsafe
+		// batches: a safe batch would wait for the paused persister while the merger is parked)
+		p.Conf.NapFiles = rapid.IntRange(1, 4).Draw(t, "napFiles")
+	}
 	n := rapid.IntRange(4, 16).Draw(t, "nDelays")
 	for i := 0; i < n; i++ {
 		p.Delays = append(p.Delays, rapid.SampledFrom([]int{0, 0, 1, 10, 50, 200, 1000}).Draw(t, "delay"))
@@ -713,6 +718,9 @@ func TestC15Programs(t *testing.T) {
 		}
 		if p.StoredLoad {
 			cls = append(cls, "stored-field-loads")
+		}
+		if p.Conf.NapFiles > 0 {
+			cls = append(cls, "persister-pauses-for-merger")
 		}
 		ev.Case(vlib.Canon(p), nt, cls...)
 		ev.AddExtra("race_reports_seen", st.races)
